@@ -56,12 +56,13 @@ def _param(sg, nn, a, rg):
 def _loss_module(nn, op):
     return {"mse": nn.MSELoss, "nll": nn.NLLLoss, "ce": nn.CrossEntropyLoss, "bce": nn.BCELoss, "bce_logits": nn.BCEWithLogitsLoss}[op]
 
-def run_lib(case, arrays, rg=None):
-    """-> (out Tensor, operand Tensors aligned with arrays).  Fresh objects on every call."""
+def run_lib(case, arrays, rg=None, ts_override=None):
+    """-> (out Tensor, operand Tensors aligned with arrays).  Fresh objects on every call (functional forms may be given
+    existing operand tensors through ts_override)."""
     sg = harness.load(); nn = sg.nn; F = sg.nn.functional
     op, form, A = case["op"], case.get("form", "fn"), case.get("args") or {}
     rg = rg or [False] * len(arrays)
-    ts = [_mk(sg, a, r) for a, r in zip(arrays, rg)]
+    ts = ts_override if ts_override is not None else [_mk(sg, a, r) for a, r in zip(arrays, rg)]
     x = ts[0]
     if op in ("relu", "selu", "tanh", "sigmoid"):
         if form == "fn": return getattr(F, op)(x), ts
